@@ -29,12 +29,14 @@ theorem bcRe_setBlock (bc : BC (Dual K)) (b : DBlock) (v : Vec (Dual K)) :
     bcRe (bc.setBlock b v) = (bcRe bc).setBlock b (vre v) := by
   cases b <;> rfl
 
-theorem decode_re (cD : Config (Dual K)) (cR : Config K) (hm : MapsOK cD cR) (hr : RefsOK cD cR) (x : List (Dual K)) :
+theorem decode_re {tdom : K → Prop} (cD : Config (Dual K)) (cR : Config K) (hm : MapsOK tdom cD cR) (hr : RefsOK cD cR)
+    (x : List (Dual K)) (hdom : ∀ i, i < cR.n → tdom (x.getD i (lit 0)).re) :
     dcRe (decode cD x) = decode cR (x.map Dual.re) := by
   have ht : (decode cD x).times.map Dual.re = (decode cR (x.map Dual.re)).times := by
     simp only [decode, hm.n, List.map_map]
-    apply List.map_congr_left; intro i _
-    simp only [Function.comp, hm.tmRe, getD_re]
+    apply List.map_congr_left; intro i hi
+    simp only [Function.comp]
+    rw [hm.tmRe _ (hdom i (List.mem_range.mp hi)), getD_re]
   have hw : (decode cD x).waypoints.map vre = (decode cR (x.map Dual.re)).waypoints := by
     simp only [decode, layout_eq cD cR hm]
     rw [← hr.wRe]
@@ -168,15 +170,16 @@ section final
 variable [LinearOrder K] [IsStrictOrderedRing K] [FloorRing K]
 
 /-- **C07**: the gradient returned by `evaluate` is the exact gradient of the cost returned by `evaluate` -/
-theorem evaluate_grad_exact (cD : Config (Dual K)) (cR : Config K) (hm : MapsOK cD cR) (hr : RefsOK cD cR)
-    (x : List (Dual K)) (costsD : Costs (Dual K)) (costsR : Costs K)
+theorem evaluate_grad_exact {tdom : K → Prop} (cD : Config (Dual K)) (cR : Config K) (hm : MapsOK tdom cD cR)
+    (hr : RefsOK cD cR) (x : List (Dual K)) (hdom : ∀ i, i < cR.n → tdom (x.getD i (lit 0)).re)
+    (costsD : Costs (Dual K)) (costsR : Costs K)
     (hst : cR.steps = cD.steps) (hrho : cD.rho.re = cR.rho) (hrho' : cD.rho.du = 0)
     (ht0 : cD.startTime.re = cR.startTime) (ht0' : cD.startTime.du = 0)
     (hn : 0 < cR.n) (hx : x.length = cR.layout.total) (hwl : cD.refWaypoints.length = cR.n + 1)
     (hpos : ∀ h ∈ (decode cR (x.map Dual.re)).times, 0 < h)
     (hc : CostsOK cD.n cD.dim costsD costsR (decode cD x)) :
     (evaluate cD x costsD).cost.du = dot (evaluate cR (x.map Dual.re) costsR).grad (x.map Dual.du) := by
-  have hdre := decode_re cD cR hm hr x
+  have hdre := decode_re cD cR hm hr x hdom
   have hT : (decode cD x).times.length = cD.n := by simp [decode]
   have hW : (decode cD x).waypoints.length = cD.n + 1 := by rw [decode_wps_length, hwl, hm.n]
   have hn1 : cD.n ≠ 0 := by rw [hm.n]; omega
@@ -207,7 +210,7 @@ theorem evaluate_grad_exact (cD : Config (Dual K)) (cR : Config K) (hm : MapsOK 
     apply hsh.rows
     have hlen : i < (pts g).length := by simp [pts, hsh.inner]; omega
     rw [List.getD_eq_getElem?_getD, List.getElem?_eq_getElem hlen]; simp
-  rw [h1, ← assemble_adjoint cD cR hm x g hn hx hsh.times hbg hpg hwl, ndPair_eq]
+  rw [h1, ← assemble_adjoint cD cR hm x hdom g hn hx hsh.times hbg hpg hwl, ndPair_eq]
   -- points
   have hpts : blockDot (pts g) ((decode cD x).waypoints.map vdu)
       = (cR.layout.vars.map (fun v => dot (pointGradOf cR.n g v.point)
